@@ -382,7 +382,7 @@ pub fn prop(tier: Tier, seed: u64) -> Prop {
 
     // ---- 2-D family incl. SuperSampling
     let algs2 = all_algs(&[1, 2, 3]);
-    let dims3 = vec![m as u64, m as u64, m as u64, m as u64, 6, algs2.len() as u64];
+    let dims3 = vec![m as u64, m as u64, m as u64, m as u64, 8, algs2.len() as u64];
     let (d3, a2, b3) = (dims3.clone(), algs2.clone(), bes.clone());
     p.spaces.push(Space::new("2-D: (w_in,h_in,w_out,h_out) x crop pairs x all algorithms incl. SuperSampling m=1,2,3", product(&dims3), move |idx, ctx| {
         let mut d = [0usize; 6];
@@ -393,6 +393,17 @@ pub fn prop(tier: Tier, seed: u64) -> Prop {
         let k = d[4];
         let (cx, cy) = match k {
             0 => (cxs[0], cys[0]),
+            // a *square* crop box with left == top inside a non-square source, and the same box one
+            // pixel in: the two axes then share every parameter except the source extent (which is
+            // what clamps the windows at the image border)
+            6 | 7 => {
+                let m = sw.min(sh);
+                let o = (k - 6) as u32;
+                if sw == sh || m <= o {
+                    return;
+                }
+                (Crop1 { start: o as f64, len: (m - o) as f64 }, Crop1 { start: o as f64, len: (m - o) as f64 })
+            }
             _ => {
                 if k >= cxs.len() && k >= cys.len() {
                     return;
@@ -497,7 +508,7 @@ pub fn prop(tier: Tier, seed: u64) -> Prop {
         }).isolated());
     }
 
-    p.rule = "1-D: every (n_in,n_out) in (1..N)^2 x CROP1(n_in) (13 members incl. fractional, sub-pixel and edge-flush boxes) x 7 filters x {Convolution, Interpolation}, each executed for all 13 pixel types x back-ends x both orientations on content rows {impulse at every position, constants, adv+/-(j) for every output sample, extremes, lcg}; long kernels n_in up to 4097; 2-D: every (w_in,h_in,w_out,h_out) in (1..M)^4 x 5 crop pairs x 35 algorithms (incl. SuperSampling m=1,2,3) x 3 contents x 13 types x back-ends, both pass orders accepted. Oracle: ideal resampler in f64 interval arithmetic, bound 1/2 + Σ|x|2^-(p+1) per pass (p read from the implementation), 4 f32 ulps for floats".into();
+    p.rule = "1-D: every (n_in,n_out) in (1..N)^2 x CROP1(n_in) (13 members incl. fractional, sub-pixel and edge-flush boxes) x 7 filters x {Convolution, Interpolation}, each executed for all 13 pixel types x back-ends x both orientations on content rows {impulse at every position, constants, adv+/-(j) for every output sample, extremes, lcg}; long kernels n_in up to 4097; 2-D: every (w_in,h_in,w_out,h_out) in (1..M)^4 x 5 crop pairs (+ square boxes with left == top inside non-square sources) x 35 algorithms (incl. SuperSampling m=1,2,3) x 3 contents x 13 types x back-ends, both pass orders accepted. Oracle: ideal resampler in f64 interval arithmetic, bound 1/2 + Σ|x|2^-(p+1) per pass (p read from the implementation), 4 f32 ulps for floats".into();
     p.bounds = json!({"N": n, "M": m, "lcg_rows": lcg_rows, "long_n_in": long_in});
     p.assumptions = vec![
         "fixed LCG streams are members of the content alphabet, not samples of a distribution".into(),
